@@ -226,3 +226,178 @@ Proof.
     cbn [firstn psum u_last]. unfold out', common in *. lia.
 Qed.
 End Stack.
+
+(* ---------- growing the store by at most one node ---------- *)
+Definition ext1 (E E' : store) : Prop := E' = E \/ exists x, E' = x :: E.
+
+Lemma tgt_ok_ext1 E E' a : ext1 E E' -> tgt_ok E a -> tgt_ok E' a.
+Proof. intros [->|(x & ->)]; auto. apply tgt_ok_cons. Qed.
+
+Lemma unf_ok_ext1 E E' u : ext1 E E' -> unf_ok E u -> unf_ok E' u.
+Proof.
+  intros He (H1 & H2 & H3 & H4). unfold unf_ok. splits; auto.
+  eapply Forall_impl; [|exact H2]. cbn. intros t (Ha & Hb). split; auto. eapply tgt_ok_ext1; eauto.
+Qed.
+
+Lemma elang_ext1 E E' a : ext1 E E' -> store_ok E' -> tgt_ok E a -> elang E' a = elang E a.
+Proof. intros [->|(x & ->)] Hs Ht; auto. apply elang_cons; auto. Qed.
+
+Lemma lang_node_unf_ext1 E E' u : ext1 E E' -> store_ok E' -> unf_ok E u ->
+  lang_node (elang E') (u_node u) = lang_node (elang E) (u_node u).
+Proof.
+  intros He Hs (_ & H2 & _). apply lang_node_ext. intros t Ht.
+  rewrite Forall_forall in H2. apply elang_ext1; auto. apply (H2 t Ht).
+Qed.
+
+Lemma Lstk_ext1 E E' st tail : ext1 E E' -> store_ok E' -> Forall (unf_ok E) st ->
+  Lstk (elang E') st tail = Lstk (elang E) st tail.
+Proof.
+  intros He Hs. induction st as [|u st IH]; intros Hu; [reflexivity|].
+  inversion Hu; subst. cbn [Lstk]. rewrite (lang_node_unf_ext1 E E' u), IH; auto.
+Qed.
+
+Lemma inputs_increasing_snoc ts t :
+  inputs_increasing ts = true -> Forall (fun x => t_inp x < t_inp t) ts ->
+  inputs_increasing (ts ++ [t]) = true.
+Proof.
+  induction ts as [|a [|b r] IH]; intros Hi Hf; [reflexivity| |].
+  - cbn [app inputs_increasing]. inversion Hf; subst. apply andb_true_iff. split; [apply N.ltb_lt; auto|reflexivity].
+  - change (inputs_increasing (a :: (b :: r) ++ [t]) = true).
+    cbn [inputs_increasing app] in *. apply andb_true_iff in Hi. destruct Hi as (H1 & H2).
+    inversion Hf; subst. apply andb_true_iff. split; auto.
+Qed.
+
+Lemma lang_node_freeze cl u i o a : u_last u = Some (i, o) ->
+  lang_node cl (freeze u a) = lang_node cl (u_node u) ++ map (cons_tr i o) (cl a).
+Proof.
+  intros Hl. unfold freeze. rewrite Hl. unfold lang_node. cbn [n_final n_fout n_trans].
+  rewrite flat_map_app. cbn [flat_map t_inp t_out t_addr]. rewrite app_nil_r, app_assoc. reflexivity.
+Qed.
+
+(* ---------- one step of compile_from: the top node t has been compiled to a' ---------- *)
+Lemma pop_step E E' lo p t a' k L :
+  ext1 E E' -> store_ok E' ->
+  sinv E (lo ++ [p; t]) k L ->
+  tgt_ok E' a' -> elang E' a' = lang_node (elang E) (u_node t) ->
+  (forall x, In x (n_trans (u_node t)) -> t_addr x <= a') ->
+  (forall a, In a (addrs E') -> In a (addrs E) \/ a = a') ->
+  sinv E' (lo ++ [mkUnf (freeze p a') None]) (firstn (length lo) k) L.
+Proof.
+  intros He HE' [Hs Hu HW Hd HL] Ha' Hla' Hle Hnew. subst L.
+  destruct (shape_app_inv lo [p; t] k Hs) as (Hlo & Hpt); [discriminate|].
+  destruct (skipn (length lo) k) as [|c [|c2 k2]] eqn:Hk; cbn [shape] in Hpt.
+  { destruct Hpt as (_ & X); discriminate. }
+  2:{ destruct Hpt as (_ & _ & []). }
+  destruct Hpt as ((o & Hp) & Ht & _).
+  apply Forall_app in Hu. destruct Hu as (Hulo & Hupt).
+  inversion Hupt as [|? ? Hup Hut']; subst. inversion Hut' as [|? ? Hut _]; subst.
+  apply (W_app 0 lo _ [p; t] Hlo) in HW. destruct HW as (HWlo & HWpt).
+  cbn [W] in HWpt. rewrite Hp in HWpt. destruct HWpt as ((HWp1 & HWp2) & HWo & HWt).
+  constructor.
+  - rewrite <- (app_nil_r (firstn (length lo) k)). apply shape_join; auto. cbn [shape u_last]. auto.
+  - apply Forall_app. split.
+    + eapply Forall_impl; [|exact Hulo]. intros u. apply unf_ok_ext1; auto.
+    + constructor; [|constructor]. destruct Hup as (U1 & U2 & U3 & U4). rewrite Hp in U4. destruct U4 as (U4 & U5).
+      unfold unf_ok, freeze. rewrite Hp. cbn [u_node u_last n_trans n_final n_fout]. splits; auto.
+      * apply inputs_increasing_snoc; auto.
+      * apply Forall_app. split.
+        -- eapply Forall_impl; [|exact U2]. cbn. intros x (Hx1 & Hx2). split; auto. eapply tgt_ok_ext1; eauto.
+        -- constructor; [|constructor]. cbn. auto.
+  - apply (W_app 0 lo _ _ Hlo). split; auto. cbn [W u_node u_last]. split; [|exact I].
+    unfold freeze. rewrite Hp. split; cbn [n_fout n_trans]; auto.
+    apply Forall_app. split; auto.
+  - intros a Hin. apply (dom_app lo _ _ a Hlo).
+    assert (Hnew' : Exists (fun x => a <= t_addr x) (n_trans (freeze p a')) -> dom [mkUnf (freeze p a') None] a)
+      by (cbn [dom u_node]; auto).
+    assert (Hlast : a <= a' -> Exists (fun x => a <= t_addr x) (n_trans (freeze p a'))).
+    { intros Hl. unfold freeze. rewrite Hp. cbn [n_trans]. apply Exists_app. right. constructor. exact Hl. }
+    destruct (Hnew a Hin) as [Hold| ->]; [|right; apply Hnew', Hlast; lia].
+    apply Hd in Hold. apply (dom_app lo _ _ a Hlo) in Hold. destruct Hold as [Hold|Hold]; [left; exact Hold|right].
+    apply Hnew'. cbn [dom] in Hold. destruct Hold as [Hold|(_ & [Hold|(_ & [])])].
+    + unfold freeze. rewrite Hp. cbn [n_trans]. apply Exists_app. left. exact Hold.
+    + apply Hlast. apply Exists_exists in Hold. destruct Hold as (x & Hx & Hax). specialize (Hle x Hx). lia.
+  - rewrite Lstk_app. rewrite (Lstk_ext1 E E'); auto. rewrite (Lstk_app _ lo [p; t]). f_equal.
+    cbn [Lstk u_node u_last]. rewrite Hp, Ht. rewrite (lang_node_freeze _ p c o a' Hp).
+    assert (Hpe : lang_node (elang E') (u_node p) = lang_node (elang E) (u_node p))
+      by (apply lang_node_unf_ext1; auto).
+    rewrite Hpe, Hla', !app_nil_r. reflexivity.
+Qed.
+
+(* ---------- add_suffix ---------- *)
+Lemma Lstk_snoc cl lo k X k' v' : lasts lo k ->
+  Lstk cl lo (X ++ [(k', v')]) = Lstk cl lo X ++ [(k ++ k', psum lo + v')].
+Proof.
+  revert k; induction lo as [|u lo IH]; intros [|c k]; cbn [lasts]; try tauto.
+  intros ((o & Ho) & Hl). cbn [Lstk psum]. rewrite Ho, (IH k Hl), map_app, app_assoc. f_equal.
+    cbn [map]. unfold cons_tr. cbn [fst snd app]. f_equal. f_equal. lia.
+Qed.
+
+Lemma Lstk_suffix cl r : Lstk cl (suffix_nodes r) [] = [(r, 0)].
+Proof.
+  induction r as [|c r IH]; cbn [suffix_nodes Lstk u_node u_last]; [reflexivity|].
+  rewrite IH. reflexivity.
+Qed.
+
+Lemma shape_suffix r : shape (suffix_nodes r) r.
+Proof. induction r as [|c r IH]; cbn [suffix_nodes shape u_last]; eauto. Qed.
+
+Lemma unf_ok_suffix E r : Forall (fun b => b < 256) r -> Forall (unf_ok E) (suffix_nodes r).
+Proof.
+  induction r as [|c r IH]; intros Hr; cbn [suffix_nodes].
+  - constructor; [|constructor]. unfold unf_ok. cbn. splits; auto.
+  - inversion Hr; subst. constructor; auto. unfold unf_ok. cbn. splits; auto.
+Qed.
+
+Lemma W_suffix pre r : pre < U64 -> W pre (suffix_nodes r).
+Proof.
+  revert pre; induction r as [|c r IH]; intros pre Hp; cbn [suffix_nodes W u_node u_last].
+  - split; [|exact I]. split; cbn; [lia|constructor].
+  - split; [split; cbn; [lia|constructor]|]. split; [lia|]. apply IH. lia.
+Qed.
+
+Lemma last_opt_app_suffix (l : list unf) r : last_opt (l ++ suffix_nodes r) = Some (mkUnf (empty_bnode true) None).
+Proof.
+  induction l as [|u l IH].
+  - cbn [app]. induction r as [|c r IHr]; [reflexivity|]. cbn [suffix_nodes].
+    destruct (suffix_nodes r) eqn:Hs; [destruct r; discriminate|]. exact IHr.
+  - cbn [app]. destruct (l ++ suffix_nodes r) eqn:Hs; [destruct l; destruct r; discriminate|]. exact IH.
+Qed.
+
+Lemma add_suffix_ok E lo top k L b r o2 :
+  sinv E (lo ++ [top]) k L ->
+  Forall (fun x => t_inp x < b) (n_trans (u_node top)) -> b < 256 -> Forall (fun c => c < 256) r ->
+  psum lo + o2 < U64 ->
+  exists st', add_suffix (lo ++ [top]) (b :: r) o2 = Ok st' /\
+    sinv E st' (k ++ b :: r) (L ++ [(k ++ b :: r, psum lo + o2)]) /\ top_empty st' /\
+    length st' = (length lo + 1 + length (b :: r))%nat.
+Proof.
+  intros [Hs Hu HW Hd HL] Hlt Hb Hr Ho. subst L.
+  destruct (shape_app_inv lo [top] k Hs) as (Hlo & Ht); [discriminate|].
+  destruct (skipn (length lo) k) as [|c k2] eqn:Hk; cbn [shape] in Ht; [|destruct Ht as (_ & [])].
+  destruct Ht as (Ht & _).
+  assert (Hkk : firstn (length lo) k = k).
+  { rewrite <- (firstn_skipn (length lo) k) at 2. rewrite Hk, app_nil_r. reflexivity. }
+  rewrite Hkk in Hlo.
+  unfold add_suffix. rewrite rev_app_distr. cbn [rev app]. rewrite Ht, rev_involutive.
+  set (top' := mkUnf (u_node top) (Some (b, o2))).
+  exists (lo ++ [top'] ++ suffix_nodes r). split; [reflexivity|].
+  apply Forall_app in Hu. destruct Hu as (Hulo & Hut). inversion Hut as [|? ? Hut1 _]; subst.
+  apply (W_app 0 lo _ [top] Hlo) in HW. destruct HW as (HWlo & HWt). cbn [W] in HWt. destruct HWt as (HWt & _).
+  split; [constructor|split].
+  - apply shape_join; auto. cbn [app shape top' u_last]. split; eauto. apply shape_suffix.
+  - apply Forall_app. split; auto. cbn [app]. constructor; [|apply unf_ok_suffix; auto].
+    destruct Hut1 as (U1 & U2 & U3 & _). unfold unf_ok, top'. cbn [u_node u_last]. splits; auto.
+  - apply (W_app 0 lo _ _ Hlo). split; auto. cbn [app W top' u_node u_last]. splits; auto.
+    apply W_suffix. lia.
+  - intros a Hin. apply (dom_app lo _ _ a Hlo). apply Hd in Hin. apply (dom_app lo _ _ a Hlo) in Hin.
+    destruct Hin as [Hin|Hin]; [left; auto|right]. cbn [dom] in Hin. destruct Hin as [Hin|(_ & [])].
+    cbn [app dom top' u_node]. left. exact Hin.
+  - rewrite Lstk_app. cbn [app Lstk top' u_node u_last]. rewrite Lstk_suffix. cbn [map].
+    change [cons_tr b o2 (r, 0)] with [(b :: r, o2 + 0)].
+    rewrite (Lstk_snoc _ lo k _ _ _ Hlo). rewrite Lstk_app. cbn [Lstk]. rewrite Ht, app_nil_r.
+    do 3 f_equal. lia.
+  - unfold top_empty. intros u Hu. change (lo ++ [top'] ++ suffix_nodes r) with (lo ++ [top'] ++ suffix_nodes r) in Hu.
+    rewrite app_assoc, last_opt_app_suffix in Hu. inversion Hu; reflexivity.
+  - rewrite !app_length. cbn [length]. assert (length (suffix_nodes r) = S (length r)).
+    { clear. induction r; cbn [suffix_nodes length]; auto. } lia.
+Qed.
